@@ -42,6 +42,13 @@ func init() {
 		"vndYield":    func(fr *frame, a []value) value { fr.i.schedPoint("yield"); return nil },
 		"vndSymbolic": func(fr *frame, a []value) value { return true },
 		"vndConcrete": vndConcrete,
+		// ghost state of harnesses: plain accesses that the race check ignores
+		"vndGhostStore": func(fr *frame, a []value) value {
+			p := a[0].(*value)
+			fr.i.setCell(p, a[1])
+			return nil
+		},
+		"vndGhostLoad": func(fr *frame, a []value) value { return *(a[0].(*value)) },
 		"vndParam": func(fr *frame, a []value) value {
 			if v, ok := fr.i.limits.Params[a[0].(string)]; ok {
 				return v
